@@ -61,6 +61,7 @@ def step (st : DState) (line : String) : DState × String :=
   | "dbg" :: rest => (st, OciModel.Driver.Iter.drive rest)
   | "uconc" :: rest => (st, OciModel.Driver.UnifyConc.drive rest)
   | "rd" :: rest => (st, OciModel.Driver.BlobReader.drive rest)
+  | "rq" :: rest => (st, OciModel.Driver.BlobReader.driveAsked rest)
   | "conc" :: rest => (st, OciModel.Driver.Conc.drive rest)
   | "authfile" :: rest =>
     let (a, out) := OciModel.Driver.AuthFile.drive st.authfile rest
@@ -85,6 +86,7 @@ def step (st : DState) (line : String) : DState × String :=
   | "req" :: rest => (st, OciModel.Driver.Req.drive rest)
   | "err" :: rest => (st, OciModel.Driver.Err.drive rest)
   | "ref" :: rest => (st, OciModel.Driver.Ref.drive rest)
+  | "rere" :: rest => (st, OciModel.Driver.Ref.driveRe rest)
   | "scope" :: rest =>
     let (r, out) := OciModel.Driver.Scope.drive st.scopes rest
     ({ st with scopes := r }, out)
